@@ -287,6 +287,19 @@ func runC15(w *World, r *Report) {
 		d3Obligations(w, r, fe, "D3-bounds", fn)
 	}
 
+	// library preconditions on caller-derived lengths
+	r.rule("lib-preconditions", "calls into libraries that panic on a wrong argument length are dominated by the exact length fact: ed25519.Verify needs len(publicKey) == 32", 1)
+	for _, fn := range w.RepoFuncs("wallet", "gossip", "notaryserver", "webhooksserver", "transformers") {
+		if fn.Pkg.Pkg.Name() == "wallet" && !strings.Contains(fn.String(), "Helper") {
+			continue // (*Wallet).Verify checks against the node's own key, not a caller-supplied address
+		}
+		for _, c := range callsTo(fn, "crypto/ed25519.Verify") {
+			key := c.Common().Args[0]
+			ok, why := fe.Holds(c.(ssa.Instruction), pfact{kind: kLenEq, path: pathOf(key), min: 32}, 0)
+			r.check(ok, "lib-preconditions", shortFn(fn)+"/ed25519.Verify", lineOf(w, c), "public key handed to ed25519.Verify has length exactly 32 (it panics otherwise)", why)
+		}
+	}
+
 	// validate before mutate
 	r.rule("validate-before-mutate", "in every handler (and the helpers it calls directly) no signature / challenge / shape validation is reachable after a call with ledger, awaiting-cache or peer-table effects", 10)
 	effect := func(in ssa.Instruction) string {
